@@ -57,6 +57,9 @@ CONSTANTS Limit, TOtotal, TOconnect, TOsockc, TOread, Thr, Offset, Horizon,
           TimerCoversBody, NestedUncancel, RearmChecksEof,
           Scripted, StallsTotal, StallsConnect, StallsSockc, StallsRead, MaxCancelAt, Orders
 
+\* ClientTimeout.__post_init__ raises `total` to the largest specific timeout (CHANGES/7274.feature)
+ASSUME Scripted \/ TOtotal = 0 \/ (TOtotal >= TOconnect /\ TOtotal >= TOsockc /\ TOtotal >= TOread)
+
 VARIABLES s, scn
 
 Reqs == {"v", "b"}
